@@ -46,6 +46,15 @@ def run(tier):
     for c in rc:
         ctx.case("reversed:" + c["src"])
     validate(ctx, rc, [dict(c.pop("tag"), order="reversed", shape="-", supported=c["supI"]) for c in rc], "C07 grammar (typed / helper groups), reverse record order, fresh interpreter", prop=PROP, with_c=True, grouped=True)
+    # typed matchers over records that HOLD records, one and two levels deep
+    nrecs, nenvs = sg.nested_records()
+    allx, _ = sg.c07_exprs(ctx.rnd, None)
+    nx = [(e, tag) for e, tag in allx if tag.get("group") in ("typed", "typed_chain")]
+    nplain = [{} for _ in nrecs]
+    ncases = [sg.make_case(e, nrecs, nplain) for e, tag in nx]
+    for c in ncases:
+        ctx.case("nested:" + c["src"])
+    validate(ctx, ncases, [dict(tag, shape=shape(e), supported=sg.supported_interpreted(e), records="nested") for e, tag in nx], "C07 typed matchers on nested records", prop=PROP, envs=nenvs)
     ctx.exhaustive = thorough
     ctx.extra["rule"] = ("expressions of depth <= 2 from the selector grammar (10 groups: cmp, bin, call, chain, gen, l2cmp, neg, bool, not, helper); quick samples each group "
                          "proportionally with the seed, thorough takes all; distinct = distinct expression texts; each is evaluated on 3 records by 2 engines")
